@@ -533,7 +533,8 @@ func ensureHTMLSafeLoginDestination(loginDestination string) string {
 	if err != nil {
 		return profilePath
 	}
-	return parsedLoginDestination.String()
+	// The result is concatenated into a quoted attribute value.
+	return htmltemplate.HTMLEscapeString(parsedLoginDestination.String())
 
 }
 
